@@ -32,6 +32,7 @@ type Contract struct {
 	Invs      []*Clause
 	Modifies  []*Clause
 	HasMod    bool // a modifies clause (possibly empty) was given
+	ModComps  []string // coarse frame: every location of the components with these name prefixes may change
 	Safety    bool // generate and claim safety obligations
 	Overflow  bool // generate and claim overflow obligations (mode int)
 	Inline    bool // callers inline the body instead of using the contract
@@ -42,6 +43,7 @@ type Contract struct {
 	UF        bool // external: result is an uninterpreted function of the arguments
 	Params    []string // external: parameter names
 	Results   []string // external / override: result names
+	Uses      []string // named axioms assumed in this unit
 	Strict    []string // package paths: calls into them must have a contract
 	Split     []string // interface parameters whose dynamic type is case-split in postcondition obligations
 	Expand    []string // callee names whose contract is ignored in this unit (body inlined instead)
@@ -68,6 +70,7 @@ type SpecFn struct {
 
 type GlobalInv struct {
 	Pkg  string
+	Name string // non-empty: a named axiom, assumed only in units that list it under "uses"
 	Expr ast.Expr
 	Text string
 }
@@ -226,7 +229,7 @@ var clauseKeywords = map[string]bool{
 	"func": true, "props": true, "ghostensures": true, "mode": true, "requires": true, "ensures": true, "invariant": true,
 	"modifies": true, "safety": true, "overflow": true, "inline": true, "trusted": true, "dispatch": true,
 	"let": true, "spec": true, "external": true, "uf": true, "params": true, "results": true,
-	"global": true, "noinline": true, "expand": true, "split": true, "strictpkgs": true, "witness": true, "havoc": true, "inlineall": true, "unroll": true,
+	"global": true, "noinline": true, "expand": true, "split": true, "strictpkgs": true, "modcomps": true, "axiom": true, "uses": true, "witness": true, "havoc": true, "inlineall": true, "unroll": true,
 }
 
 // parseContractSource extracts the //@ lines of one file.
@@ -330,6 +333,19 @@ func (cs *ContractSet) parseContractSource(pkgPath, filename string, src []byte)
 				continue
 			}
 			cs.Globals = append(cs.Globals, &GlobalInv{Pkg: pkgPath, Expr: e, Text: pp})
+		case "axiom":
+			// axiom name: expr
+			colon := strings.Index(rest, ":")
+			if colon < 0 {
+				bad(fmt.Errorf("axiom needs 'name:'"))
+				continue
+			}
+			e, pp, err := parseCExpr(strings.TrimSpace(rest[colon+1:]))
+			if err != nil {
+				bad(err)
+				continue
+			}
+			cs.Globals = append(cs.Globals, &GlobalInv{Pkg: pkgPath, Name: strings.TrimSpace(rest[:colon]), Expr: e, Text: pp})
 		default:
 			if cur == nil {
 				bad(fmt.Errorf("clause %q outside a func unit", kw))
@@ -396,6 +412,11 @@ func (cs *ContractSet) parseContractSource(pkgPath, filename string, src []byte)
 				cur.Results = strings.Fields(strings.ReplaceAll(rest, ",", " "))
 			case "dispatch":
 				cur.Dispatch = append(cur.Dispatch, strings.Fields(strings.ReplaceAll(rest, ",", " "))...)
+			case "modcomps":
+				cur.HasMod = true
+				cur.ModComps = append(cur.ModComps, strings.Fields(strings.ReplaceAll(rest, ",", " "))...)
+			case "uses":
+				cur.Uses = append(cur.Uses, strings.Fields(strings.ReplaceAll(rest, ",", " "))...)
 			case "strictpkgs":
 				cur.Strict = append(cur.Strict, strings.Fields(strings.ReplaceAll(rest, ",", " "))...)
 			case "split":
